@@ -169,3 +169,28 @@ func animCorpus(r *rand.Rand, n int, maxSide int) []namedFile {
 	}
 	return out
 }
+
+// aspectCorpus: valid files of extreme aspect ratio (more than 100000 pixels in fewer rows or columns
+// than a host has cores): the row/column partitioning of every parallel section degenerates here.
+func aspectCorpus(r *rand.Rand) []namedFile {
+	var out []namedFile
+	add := func(name, class, alpha string, w, h int, mod func(o *webp.EncoderOptions)) {
+		o := webp.DefaultOptions()
+		o.Method = 1
+		mod(o)
+		if d, err := encode(img.Gen(r, class, alpha, w, h), o); err == nil {
+			out = append(out, namedFile{Name: "aspect/" + name, Data: d})
+		}
+	}
+	ll := func(o *webp.EncoderOptions) { o.Lossless = true }
+	add("lossless-16000x9", "flat", "opaque", 16000, 9, ll)
+	add("lossless-8192x15", "pal4", "binary", 8192, 15, ll)
+	add("lossless-9x16000", "flat", "opaque", 9, 16000, ll)
+	add("lossless-4000x30", "tiles", "gradient", 4000, 30, ll)
+	add("lossless-16383x1", "pal16", "opaque", 16383, 1, ll)
+	add("lossless-1x16383", "gradient", "opaque", 1, 16383, ll)
+	add("lossy-16383x2", "gradient", "opaque", 16383, 2, func(o *webp.EncoderOptions) {})
+	add("lossy-3x12000", "flat", "opaque", 3, 12000, func(o *webp.EncoderOptions) {})
+	add("lossy+alpha-12000x10", "flat", "gradient", 12000, 10, func(o *webp.EncoderOptions) {})
+	return out
+}
